@@ -95,7 +95,14 @@ static void pair_case(Rng &r) {
   M R1; R1 << 0.6, -0.8, 0, 0.8, 0.6, 0, 0, 0, 1;
   M R2; R2 << 1, 0, 0, 0, 5.0 / 13, -12.0 / 13, 0, 12.0 / 13, 5.0 / 13;
   M Rot = R2 * R1;
-  StaticSite Ar = A, Br = B; Ar.Rotate(Rot, V3d::Zero()); Br.Rotate(Rot, V3d::Zero());
+  // centre of the common rotation: the origin, any point, or the position of one of the two sites handed over as the reference
+  // getPos() returns (what a caller writing seg.Rotate(R, seg[0].getPos()) does)
+  StaticSite Ar = A, Br = B;
+  int piv = (int)r.below(4);
+  V3d centre((r.unit() - 0.5) * 20, (r.unit() - 0.5) * 20, (r.unit() - 0.5) * 20);
+  const V3d zero = V3d::Zero();
+  const V3d &ref = piv == 0 ? zero : piv == 1 ? centre : piv == 2 ? Ar.getPos() : Br.getPos();
+  if (piv == 3) { Br.Rotate(Rot, ref); Ar.Rotate(Rot, ref); } else { Ar.Rotate(Rot, ref); Br.Rotate(Rot, ref); }
   double er = ee.CalcStaticEnergy_site(Ar, Br);
   // point-charge clusters of two sizes
   double h = 0.02 * std::min(R, 4.0);
